@@ -4,8 +4,6 @@ package c15
 import (
 	"encoding/json"
 	"fmt"
-	"os"
-	"strings"
 	"sync"
 
 	"verif/harness/core"
@@ -99,20 +97,6 @@ func newRunner(cfg script.Config, msgs [][]script.CMsg) *runner {
 	return &runner{env: script.Start(cfg), sess: make([]*script.Sess, n), msgs: msgs, next: make([]int, n), res: make([]sessResult, n)}
 }
 
-// raceLog returns the size of this process's race report file.
-func raceLog() (int64, string) {
-	for _, kv := range strings.Fields(os.Getenv("GORACE")) {
-		if strings.HasPrefix(kv, "log_path=") {
-			p := fmt.Sprintf("%s.%d", strings.TrimPrefix(kv, "log_path="), os.Getpid())
-			if fi, err := os.Stat(p); err == nil {
-				return fi.Size(), p
-			}
-			return 0, p
-		}
-	}
-	return 0, ""
-}
-
 func Run(c Case) core.Result {
 	res := core.Result{}
 	n := len(c.Sessions)
@@ -122,7 +106,7 @@ func Run(c Case) core.Result {
 	} else {
 		res.Labels = append(res.Labels, "owned-interleaving")
 	}
-	size0, logPath := raceLog()
+	mark := core.RaceMark()
 
 	// concurrent run
 	cr := newRunner(c.Cfg, c.Sessions)
@@ -166,20 +150,8 @@ func Run(c Case) core.Result {
 	}
 
 	// data races reported while serving concurrently
-	if size1, _ := raceLog(); size1 > size0 && logPath != "" {
-		b, _ := os.ReadFile(logPath)
-		rep := string(b[size0:])
-		if strings.Contains(rep, "jeroenrinzema/psql-wire") {
-			first := rep
-			if len(first) > 2500 {
-				first = first[:2500]
-			}
-			res.Sig, res.Violation = "C15/data-race", "the race detector reports unsynchronised access while serving concurrent connections:\n"+first
-			res.Detail = map[string]any{"race_report": rep}
-			return res
-		}
-		res.Inconclusive = "race report without a psql-wire frame (harness race?): " + rep[:min(len(rep), 600)]
-		return res
+	if r2 := core.RaceResult(res, "C15", core.RaceSince(mark)); r2.Violation != "" || r2.Inconclusive != "" {
+		return r2
 	}
 
 	// solo runs: every session alone on a fresh, identically configured server
